@@ -222,6 +222,8 @@ func b58WithChecksum(p []byte) string {
 	return base58Ref(append(append([]byte{}, p...), sha256d(p)[:4]...))
 }
 
+var masterSeeds = map[string][]byte{}
+
 func runC05(c *Ctx) {
 	c.Conc = true // stateless calls are also replayed from several goroutines at once
 	r := c.Rng
@@ -250,12 +252,24 @@ func runC05(c *Ctx) {
 			if ix, ok := findLeadingZeroChild(seedZ, zz, lim); ok {
 				if mz, err := hdkeychain.NewMaster(seedZ, nets[k%len(nets)]); err == nil {
 					m, chIdx = mz, ix
+					masterSeeds[mz.String()] = seedZ
 				}
 			}
 		}
 		ch, _ := m.Child(chIdx)
 		pub, _ := ch.Neuter()
 		pc, _ := pub.Child(uint32(k))
+		if k == 0 { // the leading-zero child as an object (not re-imported): hardened and normal children below it, and its string
+			var sd []byte
+			if rs, ok := masterSeeds[m.String()]; ok {
+				sd = rs
+			}
+			if sd != nil {
+				c.Run([]Event{hdCfg(), {"op": "NewMaster", "dst": 1, "seed": ints(sd), "net": 1 + k%len(nets)}, {"op": "Child", "src": 1, "dst": 2, "idx": w32(chIdx)},
+					{"op": "Child", "src": 2, "dst": 3, "idx": w32(1<<31 + 9)}, {"op": "Child", "src": 2, "dst": 4, "idx": w32(9)},
+					{"op": "Reparse", "src": 2, "dst": 5}, {"op": "Child", "src": 5, "dst": 6, "idx": w32(1<<31 + 9)}})
+			}
+		}
 		if k%2 == 1 { // a public child whose X coordinate starts with a zero byte
 			seedZ := randBytes(r, 32)
 			if ix, ok := findLeadingZeroPubChild(seedZ, 4000); ok {
